@@ -649,6 +649,12 @@ func (ps params) set(m proto.Message) error {
 	for _, p := range ps {
 		cur := m.ProtoReflect()
 		for i, fd := range p.fds {
+			if md := cur.Descriptor(); fd.ContainingMessage() != md {
+				// The message comes from another registration of the method.
+				if fd = md.Fields().ByNumber(fd.Number()); fd == nil {
+					return fmt.Errorf("field not found %v", p.fds[i].FullName())
+				}
+			}
 			if len(p.fds)-1 == i {
 				switch {
 				case fd.IsList():
